@@ -409,6 +409,33 @@ class Run(object):
       if left:
         self.fail('connection-open-after-pool-closed', 'the pool is closed and every request has completed, but %r %s still open' % (
             left, 'is' if len(left) == 1 else 'are'))
+      # the pool closed itself; until its owner reacts it still takes requests.  When the owner then calls Close()
+      # (as the resurrector does on the fault signal), whoever is waiting by then is failed like any other waiter
+      self.cur_op = ['owner_close']
+      self.cfg = dict(self.cfg, open_fails=[])
+      n2 = len(self.reqs)
+      for _ in range(self.cfg['max'] + 1):
+        r = Req(len(self.reqs), None)
+        self.reqs.append(r)
+        msg = MethodCallMessage(None, 'm', (r.id,), {})
+        msg.properties['__vf_req'] = r
+        st = ClientMessageSinkStack()
+        st.Push(Terminal(), r)
+        r.stack = st
+        gevent.spawn(self.top.AsyncProcessRequest, st, msg, None, {})
+        settle()
+      advance(0.2)
+      waiting = [r for r in self.reqs[n2:] if r.conn is None and not r.completions]
+      self.pool.Close()
+      settle()
+      advance(0.01)
+      self.raise_pending()
+      for r in waiting:
+        if len(r.completions) != 1 or not isinstance(r.completions[0][1].error, ServiceClosedError):
+          self.fail('waiter-not-failed', 'request %d was waiting in the (already self-closed) pool when its owner called Close(): completions %r' % (
+              r.id, [type(m.error).__name__ for _, m in r.completions]))
+      if waiting:
+        self.flags.add('waiter_failed_by_owner_close')
       return
     live = self.live_conns()
     if len(live) > self.cfg['min']:
